@@ -166,21 +166,22 @@ CLAIMS["C18"] = dict(
 
 CLAIMS["C15"] = dict(
     category="proof",
-    text=("Exact rational identities obtained by abstractly interpreting Mechanics.create_dynamics_functions on symbolic data (optilint.tensoreval; "
-          "an integral over the mesh is represented by its integrand at one generic point, which is exact because integration and interpolation are "
-          "linear; the material's strain energy is an opaque function of its arguments): the returned predict/correct, with UCorrection = U_{n+1} - "
-          "U_pred, realise U_{n+1} = U + dt V + dt^2[(1/2-beta)A + beta A_{n+1}] and V_{n+1} = V + dt[(1-gamma)A + gamma A_{n+1}] exactly; the "
-          "strain part of the returned algorithmic energy is the material energy of the (transformed) gradient of U with weight 1, and the "
-          "derivative of its inertia part with respect to U is rho (U - U_pred)/(beta dt^2) = M A_{n+1} with the corrector's A_{n+1} "
-          "(stationarity = f_int + M A_{n+1} = 0); the density handed to the element-stiffness kernel has the same strain part, linearised "
-          "about U, and inertia Hessian rho/(beta dt^2) I; the factory wires the material's density, dt and the Newmark beta into these. The "
-          "rules go through the factory's public return slots only, so helper extraction, renaming, moving the factor into the integrand, "
-          "lambda/def changes etc. do not matter. Energy conservation, exact rigid translation and the mass sum are trajectory/numerical "
-          "statements and are NOT decided. Also decided (structurally): every closure of create_dynamics_functions forwards the same "
-          "(post-projection) gradient transformation, and the 2-D mode dispatch selects the hoop-strain transformation exactly for "
-          "'axisymmetric' and agrees with the statics factory."),
+    text=("Exact identities between results of abstractly interpreting Mechanics.create_dynamics_functions and the closures it returns "
+          "(rules/C15_model.py: DynSym, an extension of the C02 interpreter with try / match / with, dict dispatch, n-D gathers, batched matmul, "
+          "decorators, lax.scan / fori_loop, classes; 3-element, 5-node, 2-quadrature-point mesh with independent symbols; material models and "
+          "shape functions uninterpreted; jax.hessian recorded as requests): (D1) predict and correct on symbolic nodal arrays equal the "
+          "Newmark update formulas U_{n+1} = U + dt V + dt^2[(1/2-beta)A + beta A_{n+1}], V_{n+1} = V + dt[(1-gamma)A + gamma A_{n+1}]; (D2/T7) the "
+          "strain part of the algorithmic energy equals sum w*SE(specified gradient, Q, dt), the U-gradient of its inertia part equals "
+          "M(U - U_pred)/(beta dt^2) with the consistent mass, the corrector's acceleration factor is 1/(beta dt^2), the function behind the "
+          "element Hessians has the same strain part and inertia form and is differentiated w.r.t. U[conns[e]] with nothing else depending on U, "
+          "compute_newmark_lagrangian agrees with the factory's energy, the output kinetic energy equals 1/2 rho sum w |N V|^2; (D2/T6) every "
+          "closure that calls the material hands it the same gradients (for plane strain with projection degree 1 and axisymmetric with degree "
+          "0; the deviating closure is named); (D2/T14) each mode gives [[grad u,0],[0,0]] resp. carries u_r/r in every closure and matches the "
+          "statics factory. Comparisons of the Newmark parameters are decided at generic points of the stable range. Proofs are for the "
+          "interpreted configuration. Energy conservation over histories, exact rigid translation and the mass sum are NOT decided. REFUTED "
+          "only for an exactly derived difference; a kernel that fell back to an uninterpreted function gives UNDECIDED."),
     design_ref="DESIGN.md section 4, C15 and section 11.8",
-    technique="static analysis: abstract interpretation of the factory and its closures over exact rational normal forms with opaque callables; algebraic identities on the results")
+    technique="static analysis: abstract interpretation of the dynamics factory on a symbolic small configuration with uninterpreted material functions and recorded differentiation requests; exact polynomial identities between results")
 
 CLAIMS["C20"] = dict(
     category="other",
